@@ -435,6 +435,108 @@ func (u *Unit) libraryCall(c *ast.CallExpr, fun ast.Expr, env *Env) ([]Outcome, 
 		v := argv(0)
 		u.poolPutCheck(env, c, v)
 		return ret(env), true
+	// ------------------------------------------------------------------ net/http (TRUSTED models, used by C17)
+	case "net/http.NewRequestWithContext":
+		// (nil, err) or a fresh request with the given method, a URL whose String() is the given url, the given body,
+		// and a fresh empty header
+		u.D.Trust("http.NewRequestWithContext returns (nil, err) or a fresh *Request with Method == method, URL.String() == url, Body wrapping body, and a fresh empty Header")
+		argv(0)
+		method, urlv, body := argv(1), argv(2), u.convert(argv(3), types.NewInterfaceType(nil, nil), env)
+		rt := sig0(fn).Results().At(0).Type()
+		reqT := rt.(*types.Pointer).Elem()
+		fail := env.clone()
+		e := u.D.Fresh("reqerr", SErr)
+		fail.assume(Not(Same(e, Term{"nil_Err", SErr})))
+		okEnv := env
+		r := u.alloc(okEnv, "request")
+		si := u.structOf(reqT)
+		setF := func(name string, v Term) {
+			for _, f := range si.Fields {
+				if f.Name == name {
+					hn := fieldHeapName(si, name)
+					h := u.heap(okEnv, hn, ArrS(SRef, f.Sort))
+					u.setHeap(okEnv, hn, Store(h, r, v))
+				}
+			}
+		}
+		setF("Method", method.Term)
+		ur := u.alloc(okEnv, "url")
+		u.D.Fun("url_string", SStr, SRef)
+		okEnv.assume(Same(App("url_string", SStr, ur), urlv.Term))
+		setF("URL", ur)
+		u.D.Fun("req_body_of", SVal, SVal)
+		setF("Body", App("req_body_of", SVal, body.Term))
+		hm := u.alloc(okEnv, "header")
+		{
+			mt := headerMapType(u)
+			dom, _, ks, vs := u.mapHeaps(okEnv, mt)
+			empty := u.D.Fresh("emptydom", ArrS(ks, SBool))
+			kq := u.D.Bound("k", ks)
+			okEnv.assume(Forall([]Term{kq}, Not(Select(empty, kq)), []Term{Select(empty, kq)}))
+			u.setHeap(okEnv, mapDomName(ks, vs), Store(dom, hm, empty))
+			lenH := u.heap(okEnv, mapLenName, ArrS(SRef, SInt))
+			u.setHeap(okEnv, mapLenName, Store(lenH, hm, IntLit(0)))
+		}
+		setF("Header", hm)
+		return []Outcome{
+			{env: okEnv, kind: oReturn, vals: []Value{{r, rt}, {Term{"nil_Err", SErr}, errType()}}},
+			{env: fail, kind: oReturn, vals: []Value{{Term{"nil_Ref", SRef}, rt}, {e, errType()}}},
+		}, true
+	case "net/http.Header.Clone":
+		u.D.Trust("http.Header.Clone returns nil for a nil header, else a fresh map with the same keys and values")
+		h := recvv()
+		mt := headerMapType(u)
+		nilEnv := env.clone()
+		nilEnv.assume(Same(h.Term, Term{"nil_Ref", SRef}))
+		env.assume(Not(Same(h.Term, Term{"nil_Ref", SRef})))
+		nh := u.alloc(env, "hclone")
+		dom, vh, ks, vs := u.mapHeaps(env, mt)
+		u.setHeap(env, mapDomName(ks, vs), Store(dom, nh, Select(dom, h.Term)))
+		u.setHeap(env, mapValName(ks, vs), Store(vh, nh, Select(vh, h.Term)))
+		lenH := u.heap(env, mapLenName, ArrS(SRef, SInt))
+		u.setHeap(env, mapLenName, Store(lenH, nh, Select(lenH, h.Term)))
+		rt := u.Info.TypeOf(c)
+		return []Outcome{
+			{env: env, kind: oReturn, vals: []Value{{nh, rt}}},
+			{env: nilEnv, kind: oReturn, vals: []Value{{Term{"nil_Ref", SRef}, rt}}},
+		}, true
+	case "net/http.Header.Add":
+		u.D.Trust("http.Header.Add(k, v) replaces the value list of k by hdr_added(old list, v) (a write to the header map)")
+		h := recvv()
+		k, v := argv(0), argv(1)
+		mt := headerMapType(u)
+		u.safety(env, "nil", c.Pos(), "write to nil header map "+u.exprText(fun.(*ast.SelectorExpr).X), Not(Same(h.Term, Term{"nil_Ref", SRef})))
+		u.frameCheckRef(env, h.Term, "map", c)
+		oldRaw, had := u.mapGet(env, h.Term, mt, k.Term)
+		old := Ite(had, oldRaw, u.zero(mt.Elem()))
+		u.D.Fun("hdr_added", SSlice, SSlice, SStr)
+		nv := App("hdr_added", SSlice, old, v.Term)
+		u.mapSet(env, h.Term, mt, k.Term, nv)
+		return ret(env), true
+	case "net/http.Client.Do":
+		// one event of kind 2: tr_obj = the client, tr_fn = method("http.Client.Do"), tr_arg = the request, tr_err = the error
+		u.D.Trust("http.Client.Do: one request per call; a nil error comes with a non-nil response whose Body is non-nil")
+		cl := recvv()
+		req := argv(0)
+		rt := sig0(fn).Results().At(0).Type()
+		resp := u.D.Fresh("resp", SRef)
+		e := u.D.Fresh("doerr", SErr)
+		env.assume(Not(lt(env.clock, u.birth(resp))))
+		env.assume(Imp(Same(e, Term{"nil_Err", SErr}), Not(Same(resp, Term{"nil_Ref", SRef}))))
+		if u.effectfulCallbacks() {
+			u.emitRes(env, 2, methodConst(u, "http.Client.Do"), u.box(req).Term, cl.Term, e, u.box(Value{resp, rt}).Term)
+		}
+		{
+			// a non-nil response has a non-nil Body
+			si := u.structOf(rt.(*types.Pointer).Elem())
+			for _, f := range si.Fields {
+				if f.Name == "Body" {
+					h := u.heap(env, fieldHeapName(si, "Body"), ArrS(SRef, f.Sort))
+					env.assume(Imp(Not(Same(resp, Term{"nil_Ref", SRef})), Not(u.untyped(Select(h, resp)))))
+				}
+			}
+		}
+		return ret(env, Value{resp, rt}, Value{e, errType()}), true
 	case "time.Now":
 		r := u.D.Fresh("now", SInt)
 		return ret(env, Value{r, u.Info.TypeOf(c)}), true
@@ -713,4 +815,11 @@ func (u *Unit) poolPutCheck(env *Env, c *ast.CallExpr, v Value) {
 	if inv, ok := u.poolInvFor(env, v); ok {
 		u.assert(env, "pre/sync.Pool.Put/pool-invariant@"+u.siteTag(c), "pre", c.Pos(), "POOLINV_"+typeNameOf(v.Ty)+"("+u.exprText(c.Args[0])+")", inv)
 	}
+}
+
+func sig0(fn *types.Func) *types.Signature { return fn.Type().(*types.Signature) }
+
+// map[string][]string, the underlying type of http.Header
+func headerMapType(u *Unit) *types.Map {
+	return types.NewMap(types.Typ[types.String], types.NewSlice(types.Typ[types.String]))
 }
